@@ -1343,14 +1343,41 @@ func (w *Walker) stdModel(name string, args []*Term, rt types.Type) *Term {
 		}
 	case "netip.AddrFrom4":
 		if len(args) == 1 && args[0].Op == "slicev" && len(args[0].Args) == 4 {
-			zero := true
-			for _, e := range args[0].Args {
-				if v, ok := e.Int64(); !ok || v != 0 {
+			zero, all := true, true
+			var oct [4]int64
+			for i, e := range args[0].Args {
+				v, ok := e.Int64()
+				if !ok {
+					all = false
+				}
+				if !ok || v != 0 {
 					zero = false
 				}
+				oct[i] = v
 			}
 			if zero {
 				return &Term{Op: "call", Name: "netip.IPv4Unspecified", Typ: rt}
+			}
+			if all {
+				return &Term{Op: "call", Name: "netip.MustParseAddr", Args: []*Term{mkConst(constant.MakeString(fmt.Sprintf("%d.%d.%d.%d", oct[0], oct[1], oct[2], oct[3])), types.Typ[types.String])}, Typ: rt}
+			}
+		}
+	case "net.UDPAddrFromAddrPort", "net.TCPAddrFromAddrPort":
+		// a constant IPv4 address:port: the documented result {IP: 4 or 16 byte form of the address, Port, Zone ""}
+		if len(args) == 1 && args[0].Op == "call" && args[0].Name == "netip.MustParseAddrPort" && len(args[0].Args) == 1 {
+			if str, ok := args[0].Args[0].StrVal(); ok {
+				var a, b, c, d, port int64
+				if n, _ := fmt.Sscanf(str, "%d.%d.%d.%d:%d", &a, &b, &c, &d, &port); n == 5 {
+					if pt, ok := rt.Underlying().(*types.Pointer); ok {
+						ipT := fieldType(pt.Elem(), "IP")
+						st := &Term{Op: "struct", Typ: pt.Elem(), FNames: []string{"IP", "Port", "Zone"}, Args: []*Term{
+							mk([]int64{a, b, c, d}), mkInt(port, types.Typ[types.Int]), mkConst(constant.MakeString(""), types.Typ[types.String])}}
+						st.Args[0].Typ = ipT
+						cell := w.newCell("addr", pt.Elem(), true)
+						cell.Val = st
+						return &Term{Op: "ptr", Cell: cell, Typ: rt}
+					}
+				}
 			}
 		}
 	case "netip.AddrPortFrom":
